@@ -25,13 +25,13 @@ inductive ReachStar (doc : Doc) : Nat → Nat → Prop
 /-- a non-empty chain of spreads from `a` to `b` -/
 def Reach (doc : Doc) (a b : Nat) : Prop := ∃ m, ReachStar doc a m ∧ Edge doc m b
 
-def SoundL (doc : Doc) (limit : Nat) (path : List Nat) (st : DState) (sels : List Sel) : Prop :=
+def SoundL (doc : Doc) (limit dlimit : Nat) (path : List Nat) (depth : Nat) (st : DState) (sels : List Sel) : Prop :=
   ∀ cur root, path.head? = some root → ReachStar doc root cur → (∀ n, MentionsL sels n → Edge doc cur n) →
-    (detectList doc limit path st sels).1 = .recursed → Reach doc root root
+    (detectList doc limit dlimit path depth st sels).1 = .recursed → Reach doc root root
 
-def SoundS (doc : Doc) (limit : Nat) (path : List Nat) (st : DState) (s : Sel) : Prop :=
+def SoundS (doc : Doc) (limit dlimit : Nat) (path : List Nat) (depth : Nat) (st : DState) (s : Sel) : Prop :=
   ∀ cur root, path.head? = some root → ReachStar doc root cur → (∀ n, MentionsS s n → Edge doc cur n) →
-    (detectSel doc limit path st s).1 = .recursed → Reach doc root root
+    (detectSel doc limit dlimit path depth st s).1 = .recursed → Reach doc root root
 
 theorem head_append_singleton {path : List Nat} {root n : Nat} (h : path.head? = some root) :
     (path ++ [n]).head? = some root := by
@@ -39,88 +39,132 @@ theorem head_append_singleton {path : List Nat} {root n : Nat} (h : path.head? =
   | nil => simp at h
   | cons a t => simpa using h
 
-theorem sound_all (doc : Doc) (limit : Nat) :
-    (∀ path st sels, SoundL doc limit path st sels) ∧ (∀ path st s, SoundS doc limit path st s) := by
-  apply detectList.mutual_induct doc limit (SoundL doc limit) (SoundS doc limit)
-  · intro path st cur root _ _ _ h
+theorem detectList_cons_of_not_ok (doc : Doc) (limit dlimit : Nat) (path : List Nat) (depth : Nat)
+    (st : DState) (s : Sel) (rest : List Sel)
+    (hne : ∀ st', detectSel doc limit dlimit path depth st s = (Outcome.ok, st') → False) :
+    detectList doc limit dlimit path depth st (s :: rest) = detectSel doc limit dlimit path depth st s := by
+  rw [detectList]
+  split
+  · rename_i st' heq; exact absurd heq (hne st')
+  · rfl
+
+theorem sound_all (doc : Doc) (limit dlimit : Nat) :
+    (∀ path depth st sels, SoundL doc limit dlimit path depth st sels) ∧
+    (∀ path depth st s, SoundS doc limit dlimit path depth st s) := by
+  apply detectList.mutual_induct doc limit dlimit (SoundL doc limit dlimit) (SoundS doc limit dlimit)
+  · intro path depth st cur root _ _ _ h
     simp [detectList] at h
-  · intro path st s rest st' hs ih1 ih2 cur root hh hr hm h
+  · intro path depth st s rest st' hs ih1 ih2 cur root hh hr hm h
     rw [detectList, hs] at h
     exact ih2 cur root hh hr (fun n hn => hm n (.tail hn)) h
-  · intro path st s rest hne ih1 cur root hh hr hm h
-    have : detectList doc limit path st (s :: rest) = detectSel doc limit path st s := by
-      rw [detectList]
-      split
-      · rename_i st' heq; exact absurd heq (hne st')
-      · rfl
-    rw [this] at h
+  · intro path depth st s rest hne ih1 cur root hh hr hm h
+    rw [detectList_cons_of_not_ok doc limit dlimit path depth st s rest hne] at h
     exact ih1 cur root hh hr (fun n hn => hm n (.head hn)) h
-  · intro path st sels ih cur root hh hr hm h
+  · intro path depth st sels hd cur root _ _ _ h
     rw [detectSel] at h
+    simp only [hd, if_true] at h
+    simp at h
+  · intro path depth st sels hd ih cur root hh hr hm h
+    rw [detectSel] at h
+    simp only [hd, if_false] at h
     exact ih cur root hh hr (fun n hn => hm n (.nested hn)) h
-  · intro path st n hc hhd cur root hh hr hm _
+  · intro path depth st n hc hhd cur root hh hr hm _
     have : n = root := by
       rw [hh] at hhd; have : root = n := by simpa using hhd
       exact this.symm
     subst this
     exact ⟨cur, hr, hm n (.spread n)⟩
-  · intro path st n hc hhd cur root _ _ _ h
+  · intro path depth st n hc hhd cur root _ _ _ h
     simp only [detectSel, hc, hhd, if_true, if_false] at h
     simp at h
-  · intro path st n hc hs cur root _ _ _ h
+  · intro path depth st n hc hs cur root _ _ _ h
     simp only [detectSel, hc, hs, if_true, if_false] at h
     simp at h
-  · intro path st n hc hs hl cur root _ _ _ h
+  · intro path depth st n hc hs hl cur root _ _ _ h
     simp only [detectSel, hc, hs, hl, if_true, if_false] at h
     simp at h
-  · intro path st n hc hs body hl hlim cur root _ _ _ h
+  · intro path depth st n hc hs body hl hlim cur root _ _ _ h
     simp only [detectSel, hc, hs, hl, hlim, if_true, if_false] at h
     simp at h
-  · intro path st n hc hs body hl hlim ih cur root hh hr hm h
+  · intro path depth st n hc hs body hl hlim hd cur root _ _ _ h
+    simp only [detectSel, hc, hs, hl, hlim, hd, if_true, if_false] at h
+    simp at h
+  · intro path depth st n hc hs body hl hlim hd ih cur root hh hr hm h
     rw [detectSel] at h
-    simp only [hc, hs, hl, hlim, if_false, Bool.false_eq_true] at h
+    simp only [hc, hs, hl, hlim, hd, if_false, Bool.false_eq_true] at h
     exact ih n root (head_append_singleton hh) (.snoc hr (hm n (.spread n)))
       (fun m hm' => ⟨body, hl, hm'⟩) h
 
-def BoundL (doc : Doc) (limit : Nat) (path : List Nat) (st : DState) (sels : List Sel) : Prop :=
-  path.length ≤ limit → st.high ≤ limit + 1 → (detectList doc limit path st sels).2.high ≤ limit + 1
+/-- both ghost high-water marks stay within their limit + 1: the name stack (`RecursionStack::high`)
+    and the call depth (`DepthCounter::high`) -/
+def Within (limit dlimit : Nat) (st : DState) : Prop := st.high ≤ limit + 1 ∧ st.dhigh ≤ dlimit + 1
 
-def BoundS (doc : Doc) (limit : Nat) (path : List Nat) (st : DState) (s : Sel) : Prop :=
-  path.length ≤ limit → st.high ≤ limit + 1 → (detectSel doc limit path st s).2.high ≤ limit + 1
+def BoundL (doc : Doc) (limit dlimit : Nat) (path : List Nat) (depth : Nat) (st : DState) (sels : List Sel) : Prop :=
+  path.length ≤ limit → depth ≤ dlimit → Within limit dlimit st →
+    Within limit dlimit (detectList doc limit dlimit path depth st sels).2
 
-theorem bound_all (doc : Doc) (limit : Nat) :
-    (∀ path st sels, BoundL doc limit path st sels) ∧ (∀ path st s, BoundS doc limit path st s) := by
-  apply detectList.mutual_induct doc limit (BoundL doc limit) (BoundS doc limit)
-  · intro path st _ h; simpa [detectList] using h
-  · intro path st s rest st' hs ih1 ih2 hp hh
+def BoundS (doc : Doc) (limit dlimit : Nat) (path : List Nat) (depth : Nat) (st : DState) (s : Sel) : Prop :=
+  path.length ≤ limit → depth ≤ dlimit → Within limit dlimit st →
+    Within limit dlimit (detectSel doc limit dlimit path depth st s).2
+
+theorem bound_all (doc : Doc) (limit dlimit : Nat) :
+    (∀ path depth st sels, BoundL doc limit dlimit path depth st sels) ∧
+    (∀ path depth st s, BoundS doc limit dlimit path depth st s) := by
+  apply detectList.mutual_induct doc limit dlimit (BoundL doc limit dlimit) (BoundS doc limit dlimit)
+  · intro path depth st _ _ h; simpa [detectList] using h
+  · intro path depth st s rest st' hs ih1 ih2 hp hd hh
     rw [detectList, hs]
-    have := ih1 hp hh
+    have := ih1 hp hd hh
     rw [hs] at this
-    exact ih2 hp this
-  · intro path st s rest hne ih1 hp hh
-    have : detectList doc limit path st (s :: rest) = detectSel doc limit path st s := by
-      rw [detectList]
-      split
-      · rename_i st' heq; exact absurd heq (hne st')
-      · rfl
-    rw [this]; exact ih1 hp hh
-  · intro path st sels ih hp hh
-    rw [detectSel]; exact ih hp hh
-  · intro path st n hc hhd _ hh; simp only [detectSel, hc, hhd, if_true, if_false]; exact hh
-  · intro path st n hc hhd _ hh; simp only [detectSel, hc, hhd, if_true, if_false]; exact hh
-  · intro path st n hc hs _ hh; simp only [detectSel, hc, hs, if_true, if_false]; exact hh
-  · intro path st n hc hs hl _ hh; simp only [detectSel, hc, hs, hl, if_true, if_false]; exact hh
-  · intro path st n hc hs body hl hlim hp hh
+    exact ih2 hp hd this
+  · intro path depth st s rest hne ih1 hp hd hh
+    rw [detectList_cons_of_not_ok doc limit dlimit path depth st s rest hne]
+    exact ih1 hp hd hh
+  · intro path depth st sels hlim hp hd hh
+    rw [detectSel]
+    simp only [hlim, if_true]
+    obtain ⟨h1, h2⟩ := hh
+    refine ⟨h1, ?_⟩
+    show max st.dhigh (depth + 1) ≤ dlimit + 1
+    omega
+  · intro path depth st sels hlim ih hp hd hh
+    rw [detectSel]
+    simp only [hlim, if_false]
+    obtain ⟨h1, h2⟩ := hh
+    apply ih hp (by omega)
+    refine ⟨h1, ?_⟩
+    show max st.dhigh (depth + 1) ≤ dlimit + 1
+    omega
+  · intro path depth st n hc hhd _ _ hh; simp only [detectSel, hc, hhd, if_true, if_false]; exact hh
+  · intro path depth st n hc hhd _ _ hh; simp only [detectSel, hc, hhd, if_true, if_false]; exact hh
+  · intro path depth st n hc hs _ _ hh; simp only [detectSel, hc, hs, if_true, if_false]; exact hh
+  · intro path depth st n hc hs hl _ _ hh; simp only [detectSel, hc, hs, hl, if_true, if_false]; exact hh
+  · intro path depth st n hc hs body hl hlim hp hd hh
     simp only [detectSel, hc, hs, hl, hlim, if_true, if_false, Bool.false_eq_true]
+    obtain ⟨h1, h2⟩ := hh
+    refine ⟨?_, h2⟩
     show max st.high (path.length + 1) ≤ limit + 1
     omega
-  · intro path st n hc hs body hl hlim ih hp hh
-    rw [detectSel]
-    simp only [hc, hs, hl, hlim, if_false, Bool.false_eq_true]
-    apply ih
-    · simp; omega
+  · intro path depth st n hc hs body hl hlim hdl hp hd hh
+    simp only [detectSel, hc, hs, hl, hlim, hdl, if_true, if_false, Bool.false_eq_true]
+    obtain ⟨h1, h2⟩ := hh
+    refine ⟨?_, ?_⟩
     · show max st.high (path.length + 1) ≤ limit + 1
       omega
+    · show max st.dhigh (depth + 1) ≤ dlimit + 1
+      omega
+  · intro path depth st n hc hs body hl hlim hdl ih hp hd hh
+    rw [detectSel]
+    simp only [hc, hs, hl, hlim, hdl, if_false, Bool.false_eq_true]
+    obtain ⟨h1, h2⟩ := hh
+    apply ih
+    · simp; omega
+    · omega
+    · refine ⟨?_, ?_⟩
+      · show max st.high (path.length + 1) ≤ limit + 1
+        omega
+      · show max st.dhigh (depth + 1) ≤ dlimit + 1
+        omega
 
 theorem keyLe_total (a b : Key) : (keyLe a b || keyLe b a) = true := by
   cases a with
